@@ -416,7 +416,7 @@ func (vc *VC) ghostKey(name string) (string, *GhostDecl, bool) {
 			if gd.Result == "bool" {
 				s = "Bool"
 			}
-			vc.keyMetas[key] = keyMeta{Sort: s, Ghost: true, Local: true}
+			vc.keyMetas[key] = keyMeta{Sort: s, Ghost: true, Local: true, Scratch: gd.Scratch}
 		}
 	}
 	return key, gd, true
